@@ -190,6 +190,11 @@ type World struct {
 
 	LastTime time.Time
 	lastRedo *BlockRecord
+	Trace    *Trace  // the trace being generated / replayed (read by C10)
+	Executed []*Step // steps executed so far
+	Replica  bool    // this world is a secondary replica (no statistics)
+	// Committed: decoded snapshot per committed height of the current chain (last few)
+	Committed map[int64]*Snapshot
 
 	dig      hash.Hash
 	shape    hash.Hash
@@ -281,6 +286,7 @@ func (w *World) noteState(s *Snapshot) {
 func (w *World) Exec(st *Step) bool {
 	defer func() { w.StepIdx++ }()
 	w.Stats.Steps++
+	w.Executed = append(w.Executed, st)
 	switch st.Kind {
 	case KBegin:
 		w.execBegin(st)
@@ -568,6 +574,11 @@ func (w *World) execCommit(st *Step) {
 	blk := w.curBlock
 	w.curBlock = nil
 	w.pushView(w.Cur)
+	if w.Committed == nil {
+		w.Committed = map[int64]*Snapshot{}
+	}
+	w.Committed[blk.Height] = w.Cur
+	delete(w.Committed, blk.Height-8)
 	w.digest("commit", hash)
 	if w.Checker != nil {
 		w.Checker.AfterCommit(w, blk)
@@ -763,6 +774,7 @@ func (w *World) execGenesisRestart(st *Step) {
 				w.epochBase = append(w.epochBase, g)
 				w.epochAt = append(w.epochAt, len(w.Blocks))
 				w.Views = nil
+				w.Committed = nil
 				w.pushView(w.Cur)
 				w.Fault("F10_continued_on_import")
 			}
@@ -825,6 +837,7 @@ func ReplayTrace(tr *Trace, ck Checker) (*World, error) {
 	if err != nil {
 		return nil, err
 	}
+	w.Trace = tr
 	for _, st := range tr.Steps {
 		if !w.Exec(st) {
 			break
